@@ -415,7 +415,6 @@ def lazy_tag(via='engine'):
             finally:
                 merchant_utils.extract_merchant_name = real
             cat, tags = ('' if c == 'Unknown' else c), set((info or {}).get('tags', []))
-        tags = {t for t in tags if not t.startswith('<')}       # what an unconsumed generator is rendered as is not this property's subject
         exp_tags = ({'st'} if hit else set()) | ({'large'} if amount > n1 else set())
         return post(cat == ('Shopping' if hit else '') and tags == exp_tags)
     return ob
